@@ -93,6 +93,14 @@ PROPS.update({
             "real": REAL, "stubs": STUBS, "assumptions": COMMON_ASSUME + ["ThreadSanitizer keeps a bounded access history per memory word: a race whose accesses are far apart can be missed in one run"]},
 })
 
+PROPS.update({
+    "C17": {"level": "fault_enumeration", "budget": {"quick": 60, "thorough": 900}, "death_is_violation": True,
+            "level_text": "seeded search over boundary-dense request sequences of 1-4 clients on the same files; every history is checked with porcupine against the executable SimpleNFS specification (30 files of at most 4096 bytes, hole/limit/count rules, eof flag); inside every sampled run all crash points of the disk trace are enumerated and each recovered state must be explained by the acknowledged requests plus an all-or-nothing choice for those in flight",
+            "rule": "one evaluation = one seeded simulated run of 1-4 clients (4-18 READ/WRITE/SETATTR/GETATTR requests each; inode numbers valid and invalid, offsets/counts/sizes from 0 over the 4096 boundary to 2^64-1, counts that disagree with the data) under a seeded schedule, linearizability check, then recovery from every crash point (prefix mode + sampled subsets). distinct = distinct execution fingerprint; non-trivial = at least 3 requests",
+            "state_measure": "content hash of distinct crash images recovered",
+            "real": ["go-nfsd/simple (all of it)", "go-journal wal/obj/jrnl/buf/lockmap"], "stubs": STUBS, "assumptions": COMMON_ASSUME},
+})
+
 NOT_APPLICABLE = {
     "C16": "pure function of its input (XDR encode/decode round-trip and a static dispatch table): no schedule, clock, fault or interleaving for a simulator to decide; see DESIGN.md section 6",
 }
